@@ -622,13 +622,17 @@ enum { CK_IDLE, CK_SLOW, NCK };
 static char key17[200];
 static int nb17;
 static int c17_in_api;
+static int c17_close_std;   /* bit i: the parent's descriptor i is closed before the start (so that pipe ends of the library land on 0-2) */
+static int c17_far_closed;  /* the far side of the pipe under test has been closed: nothing is left to wait for */
 
 static void c17_hang(const char *where)
 {
   vk_obs("hang(%s)", where);
   if (!strncmp(where, "livelock", 8)) { vk_violation("C17", "busy-wait", key17, "a library call spins without blocking or returning (%s)", where); return; }
   if (nb17 && c17_in_api) vk_violation("C17", "nonblocking-blocks", key17, "a call in nonblocking mode blocked in %s", where);
-  /* in blocking mode an idle child legitimately blocks the caller forever */
+  /* in blocking mode an idle child legitimately blocks the caller forever - unless the far side of the pipe is gone: then there is nothing to wait for */
+  else if (c17_in_api && c17_far_closed)
+    vk_violation("C17", "blocks-although-far-side-closed", key17, "a blocking call waits forever in %s although the child has closed its end of the pipe (somebody else still holds it open)", where);
 }
 
 static int blocked_intervals(int api, int *woke_child, int *by_timeout)
@@ -652,10 +656,13 @@ static void c17_stream_cfg(int nb, int ps, int opk, int ck)
   vk_cfg.vlimit = 24;
   vk_cfg.hello_lite = 1;
   nb17 = nb;
-  snprintf(key17, sizeof key17, "h_c17|%s|pipe=%s|op=%s|child=%s", nb ? "nonblocking" : "blocking", ps_names[ps], opk_names[opk], ck ? "slow" : "idle");
+  c17_far_closed = ps == PS_FAR_CLOSED;
+  snprintf(key17, sizeof key17, "h_c17|%s|pipe=%s|op=%s|child=%s|std-closed=%d", nb ? "nonblocking" : "blocking", ps_names[ps], opk_names[opk], ck ? "slow" : "idle", c17_close_std);
   hx_desc("%s", key17);
-  snprintf(key17, sizeof key17, "h_c17|%s|op=%s", nb ? "nonblocking" : "blocking", opk_names[opk]);
+  snprintf(key17, sizeof key17, "h_c17|%s|op=%s%s", nb ? "nonblocking" : "blocking", opk_names[opk], c17_close_std ? "|parent-std-closed" : "");
   hx_begin();
+  for (int i = 0; i < 3; i++)
+    if (c17_close_std & (1 << i)) close(i);
   vk_set_hang_hook(c17_hang);
   int is_read = opk == OPK_READ_OUT || opk == OPK_READ_ERR || opk == OPK_READ_OUT_BIG;
   int s = opk == OPK_READ_ERR ? 2 : 1;
@@ -754,6 +761,9 @@ static void c17_stream_cfg(int nb, int ps, int opk, int ck)
     if (is_read && res == REPROC_EWOULDBLOCK) vk_violation("C17", "blocking-result", key17, "a blocking read returned would-block");
     if (!is_read && res >= 0 && res != size && res != REPROC_EPIPE) vk_violation("C17", "blocking-write-complete", key17, "a blocking write of %d returned %d", size, res);
   }
+  /* the far side closed and nothing pending: the closed-pipe error, at once, in either mode */
+  if (ps == PS_FAR_CLOSED && ck == CK_IDLE && !(!is_read && size == 0) && res != REPROC_EPIPE)
+    vk_violation("C17", "far-side-closed-epipe", key17, "the child has closed its end of the pipe, yet %s returned %s instead of the closed-pipe error", opk_names[opk], hx_errname(res));
   vk_cfg.sched_on = 0;
   reproc_stop_actions k = { { REPROC_STOP_KILL, REPROC_INFINITE }, { REPROC_STOP_NOOP, 0 }, { REPROC_STOP_NOOP, 0 } };
   reproc_stop(p, k);
@@ -829,7 +839,8 @@ static void c17_input_cfg(int nb, int si)
   hx_destroy(p);
 }
 
-static long c17_n(int tier) { (void) tier; return 2L * NPS * NOPK * NCK + 2L * NINPUT; }
+#define NSTDC 12
+static long c17_n(int tier) { (void) tier; return 2L * NPS * NOPK * NCK + 2L * NINPUT + NSTDC; }
 static void c17_run(int tier, long cfg)
 {
   (void) tier;
@@ -842,9 +853,18 @@ static void c17_run(int tier, long cfg)
     int opk = (int) (cfg % NOPK);
     cfg /= NOPK;
     c17_stream_cfg(nb, ps, opk, (int) cfg);
-  } else {
+  } else if (cfg - ns < 2L * NINPUT) {
     cfg -= ns;
     c17_input_cfg((int) (cfg % 2), (int) (cfg / 2));
+  } else {
+    /* the far side closed, with standard descriptors of the parent closed beforehand: a pipe end of the library that landed on 0-2 and was moved
+     * away must not stay behind (it would keep the pipe open from the parent's own side) */
+    long k = cfg - ns - 2L * NINPUT;
+    static const int ops[3] = { OPK_WRITE1, OPK_READ_OUT, OPK_READ_ERR };
+    int nb = (int) (k % 2), op = ops[(k / 2) % 3], mask = (k / 6) ? 6 : 1;
+    c17_close_std = mask;
+    c17_stream_cfg(nb, PS_FAR_CLOSED, op, CK_IDLE);
+    c17_close_std = 0;
   }
 }
 
